@@ -178,6 +178,21 @@ pub(in crate::tree_store::page_store) fn any_two_valid_slots_header(p: usize) ->
     }
 }
 
+/// a concrete two-region header (for harnesses in which the header plays no role)
+pub(in crate::tree_store::page_store) fn concrete_header() -> DatabaseHeader {
+    DatabaseHeader {
+        primary_slot: 0,
+        recovery_required: true,
+        two_phase_commit: false,
+        page_size: 512,
+        region_header_pages: 0,
+        region_max_data_pages: 16,
+        full_regions: 2,
+        trailing_partial_region_pages: 0,
+        transaction_slots: [TransactionHeader::new(TransactionId::new(1)), TransactionHeader::new(TransactionId::new(1))],
+    }
+}
+
 /// field-by-field equality of two headers (both without corrupt slots); by c10_header_codec the
 /// byte image is a function of exactly these fields
 pub(in crate::tree_store::page_store) fn header_fields_eq(a: &DatabaseHeader, b: &DatabaseHeader) -> bool {
